@@ -3,7 +3,7 @@ SPECIFICATION Spec
 CONSTANTS
   MaxFiles = 2
   MaxCorpora = 2
-  DocSizes = {1, 4, 6}
+  DocSizes = {1, 7}
   MetaVals <- B
   Ns = {1, 2, 3, 4}
   MaxGroups = 3
